@@ -293,6 +293,11 @@ M('empty-files-share-inode-udf', 'fault', ['C02', 'C07'], ['SA-IDENT.key'],
 M('twin-empty-guard-rewritten', 'twin', ['C02', 'C07'], [],
   [(PY, "                        if len_to_use > 0 and extent_to_use in extent_to_inode:\n", "                        if len_to_use != 0 and extent_to_use in extent_to_inode:\n")])
 
+M('eltorito-zero-indicator-shadowed', 'fault', ['C01', 'C05', 'C08', 'C10', 'C11'], ['SA-DISPATCH.shadow'],
+  [(ELT, "            if val == b'\\x00' and not section_open:\n", "            if val == b'\\x00':\n")], "val: b'\\x00'")
+M('twin-eltorito-dispatch-reordered', 'twin', ['C01', 'C05', 'C08', 'C10', 'C11'], [],
+  [(ELT, "            if val == b'\\x00' and not section_open:\n", "            if not section_open and val == b'\\x00':\n")])
+
 
 def applicable(m, sources):
     for rel, old, new in m['edits']:
